@@ -4,7 +4,7 @@
     which the integrand was called).  [val], [wrn], [trc] are the three projections. *)
 From Coq Require Import Reals ZArith List Lra Bool Arith.
 From Coquelicot Require Import Coquelicot.
-From LP Require Import Num NumR C03_Model C03_Proofs C03_Proofs_Remainder C03_Proofs_Seq C03_Proofs_More C03_Proofs_Arith.
+From LP Require Import Num NumR C03_Model C03_Proofs C03_Proofs_Remainder C03_Proofs_Seq C03_Proofs_More C03_Proofs_Arith C03_Proofs_Bound.
 Import ListNotations.
 Local Open Scope R_scope.
 
@@ -388,3 +388,29 @@ Print Assumptions C03_integrate_is_composite_rule.
 Example C03_composite_rule_two_panels :
   panels (fun x => x ^ 4) 1 0 1 (Rabs (1 / 10000)) = [(0, 1 / 2); (1 / 2, 1)].
 Proof. exact composite_rule_nonvacuous. Qed.
+
+
+(** Size of the estimates ("to rounding" at the upper end of the double range: which requests can make an intermediate of the
+    rule as written exceed the largest double).  For an integrand bounded by M and ordered limits, the first estimate S and the
+    two-panel estimate S2 are at most (b-a) M in modulus, S2 - S at most 2 (b-a) M, and the accepted five-point value
+    S2 + (S2 - S)/15 at most (17/15) (b-a) M (coq/C03_Proofs_Bound.v). *)
+Theorem C03_leaf_value_bounded (f : R -> R) (M a b : R) :
+  a <= b -> (forall x, Rabs (f x) <= M) ->
+  Rabs (simp f a b) <= (b - a) * M /\
+  Rabs (S2of f a b) <= (b - a) * M /\
+  Rabs (S2of f a b - simp f a b) <= 2 * ((b - a) * M) /\
+  Rabs (leafval f a b) <= 17 / 15 * ((b - a) * M).
+Proof. exact (panel_bounds f M a b). Qed.
+Print Assumptions C03_leaf_value_bounded.
+
+(** ... and the value returned by Integrate, for every epsilon, depth and pair of limits, is at most (17/15) |b-a| M. *)
+Theorem C03_value_bounded (f : R -> R) (M a b eps : R) (depth : Z) :
+  (forall x, Rabs (f x) <= M) ->
+  Rabs (val (integrate ROps f a b eps depth)) <= 17 / 15 * (Rabs (b - a) * M).
+Proof. exact (integrate_value_bounded f M a b eps depth). Qed.
+Print Assumptions C03_value_bounded.
+
+(** non-vacuity: the constant 3 on [0,2] is bounded by 3 and its integral 6 = (b-a) M *)
+Example C03_value_bounded_premises :
+  (forall x, Rabs ((fun _ : R => 3) x) <= 3) /\ val (integrate ROps (fun _ => 3) 0 2 1 0) = 6.
+Proof. exact value_bound_nonvacuous. Qed.
